@@ -1,7 +1,9 @@
 """C06 - multi-hop packets: at-most-once delivery and forwarding, shrinking hop budget."""
 from __future__ import annotations
 
+import datetime
 import json
+import math
 
 from . import common
 from . import router_sim as rs
@@ -27,9 +29,11 @@ ASSUMPTIONS = [
 ]
 EXPLANATION = ("theorems: duplicate rejected while fewer than DPL-length other numbers were accepted (any history), a rejected "
                "duplicate is neither delivered nor forwarded (6 packet types), own packets ignored, every forwarded copy has "
-               "RHL-1 and none for RHL 0/1 (any frame/state), CBF buffered copy dropped on duplicate and sent at most once, DE "
+               "RHL-1 and none for RHL 0/1 (any frame/state), CBF buffered copy dropped on duplicate (also after any position updates of "
+               "the station, which leave duplicate lists and buffer alone) and sent at most once, DE "
                "PV refreshed only by newer; secured packets: full clause refuted (KF-C06-1), actual behaviour proved; correspondence of "
-               "single-station histories (unsecured and secured branch) + multi-station floods on real routers")
+               "single-station histories (unsecured and secured branch, static and moving station) + multi-station floods on real "
+               "routers (static and moving stations)")
 
 M32 = 2 ** 32
 MH = ("tsb", "gbc", "gac", "guc", "lsreq", "lsrep")
@@ -49,14 +53,21 @@ def oracle_history(ctx, st, events, impl):
     me = st.mid
     ring = {}          # src -> list of accepted SNs (newest last), the oracle's own duplicate window
     buffered = {}      # cbf key -> received packet
+    moved = set()      # buffered keys whose copy has been waiting across a position update of the station
+    pos = (st.ego0[4], st.ego0[5])
     prev = None
     for idx, (ev, obs) in enumerate(zip(events, impl)):
         inp = {"event_index": idx, "event": rs._ev_repr({k: v for k, v in ev.items() if k not in ("dests", "model_pkt")}),
                "history_tail": [rs._ev_repr({k: v for k, v in e.items() if k not in ("dests", "pkt", "model_pkt")}) for e in events[max(0, idx - 8):idx]]}
         table = {tuple(e["addr"]) for e in obs["state"]["loct"]}
+        if ev["ev"] == "ego":
+            if (ev["pv"][4], ev["pv"][5]) != pos:
+                moved.update(buffered)
+            pos = (ev["pv"][4], ev["pv"][5])
         if ev["ev"] == "cbf":
             key = tuple(ev["key"])
             if key in buffered:
+                ctx.count(1, "cbf_timer_expiry_with_copy_waiting" + ("_after_the_station_moved" if key in moved else ""))
                 pkt = buffered.pop(key)
                 want = pkt[:3] + bytes([(pkt[3] - 1) % 256]) + pkt[4:]
                 got = list(obs["sent"])
@@ -139,6 +150,11 @@ def oracle_history(ctx, st, events, impl):
                                          "delivered or forwarded", None, {"inds": len(obs["inds"]), "fwd": len(fwd)})
                 if ev["kind"] == "gbc" and key in buffered:
                     buffered.pop(key)
+                    # whatever happened to the station since the copy was buffered: the clause has no exception for a
+                    # station that has moved on (statistics only: where the station is now)
+                    ctx.count(1, "cbf_duplicate_overheard_while_copy_waits" + (
+                        "_station_moved_now_" + ("inside" if rs.f_value(ev["area"], *pos) >= 0 else "outside")
+                        if key in moved else ""))
                     if list(key) in [list(k) for k in obs["state"]["cbf"]]:
                         ctx.property_failure("cbf_not_cancelled", inp, "a duplicate was overheard but the copy waiting in the "
                                              "CBF buffer was kept", None, obs["state"]["cbf"])
@@ -187,24 +203,160 @@ class PassVerify:
                                permissions=b"", plain_message=request.message)
 
 
-def histories(ctx, n_hist, n_events, wrap=False, secured=False):
+# --------------------------------------------------------------------------- the station moves
+def _point_of_area(area, u, v):
+    """the point with the coordinates (u * a, v * b') in the frame of an area (u along its azimuth; b' = a for a circle):
+    inside for u^2 + v^2 < 1, outside for |u| > 1 or |v| > 1, whatever the shape.  Generator only."""
+    clat, clon, a, b, angle, shape = area
+    x, y = u * a, v * (a if shape == 0 else b)
+    th = math.radians(angle)
+    north, east = x * math.cos(th) - y * math.sin(th), x * math.sin(th) + y * math.cos(th)
+    lat = clat + int(round(math.degrees(north / rs.R_EARTH) * 1e7))
+    lon = clon + int(round(math.degrees(east / (rs.R_EARTH * math.cos(math.radians(clat / 1e7)))) * 1e7))
+    return lat, lon
+
+
+def _usable_area(area):
+    return area[2] > 0 and (area[5] == 0 or area[3] > 0)
+
+
+def _side_of(rng, area, inside, tries=40):
+    """a position clearly inside / clearly outside the area (not within 1e-3 of its border), or None"""
+    for _ in range(tries):
+        if inside:
+            r, phi = rng.uniform(0, 0.95), rng.uniform(0, 2 * math.pi)
+            u, v = r * math.cos(phi), r * math.sin(phi)
+        else:
+            u, v = rng.choice([-1, 1]) * rng.choice([1.05, 1.5, rng.uniform(1.05, 4.0)]), rng.uniform(-1.5, 1.5)
+            if rng.random() < 0.5:
+                u, v = v, u
+        la, lo = _point_of_area(area, u, v)
+        if abs(la) > 899000000 or abs(lo) > 1799000000:
+            continue
+        f = rs.f_value(area, la, lo)
+        if abs(f) > 1e-3 and (f > 0) == inside:
+            return la, lo
+    return None
+
+
+def ego_pv(st, now, pos, rng=None):
+    """position vector of a position update of the station (time of the fix = now; speed and heading vary)"""
+    pv = list(st.ego0)
+    pv[3], pv[4], pv[5] = now % 2 ** 32, pos[0], pos[1]
+    if rng is not None:
+        pv[7] = rng.choice([0, 0, 1, 1389, rng.randrange(-16384, 16384)])
+        pv[8] = rng.choice([0, 900, 3599, rng.randrange(3601)])
+    return pv
+
+
+class MovingScenario(rs.Scenario):
+    """a station that keeps moving: its position vector is refreshed between the other events, as in ordinary operation
+    (Router.refresh_ego_position_vector on every position fix).  The updates are of every size: the same place again, GPS
+    jitter, a few metres, kilometres, back to an earlier position, and - most often - to the other side of the border of
+    an area that a recently received GeoBroadcast / GeoAnycast packet named.  New areas lie around the position at that
+    time and earlier areas are named again, so that for the packets, the duplicates and the CBF timer expiries of one
+    history the station is inside for some and outside for others.  Everything the router keeps across a position update
+    (duplicate lists, CBF buffer, location table, LS state) is thereby examined at another position than it was built at."""
+
+    def __init__(self, rng, station, **kw):
+        super().__init__(rng, station, **kw)
+        self.home = (station.ego[4], station.ego[5])
+        self.cur = self.home
+        self.trail = [self.home]
+        self.seen_areas = []
+        self.held = []          # GeoBroadcast packets received inside their area with hops left: CBF stations buffer those
+
+    def _area(self, inside_bias=0.6):
+        if self.seen_areas and self.rng.random() < 0.3:
+            return self.rng.choice(self.seen_areas[-6:])
+        a = super()._area(max(inside_bias, 0.8))          # around the initial position: translated to the current one
+        la, lo = a[0] + self.cur[0] - self.home[0], a[1] + self.cur[1] - self.home[1]
+        if abs(la) <= 899000000 and abs(lo) <= 1799000000:
+            a = (la, lo) + tuple(a[2:])
+        self.seen_areas.append(a)
+        return a
+
+    def rx_event(self, kind, **kw):
+        ev = super().rx_event(kind, **kw)
+        if kind == "gbc" and ev["rhl"] > 1 and _usable_area(ev["area"]) and rs.f_value(ev["area"], *self.cur) >= 0:
+            self.held.append(ev)
+        return ev
+
+    def dup_event(self):
+        """half of the duplicates are those of a GeoBroadcast packet whose copy may still wait in the CBF buffer"""
+        if self.held and self.rng.random() < 0.5:
+            old = self.rng.choice(self.held[-3:])
+            ev = dict(old)
+            ev["now"], ev["dup_of"] = self.now, True
+            if self.rng.random() < 0.5:      # the copy another forwarder sent: one hop less
+                b = bytearray(ev["pkt"])
+                b[3] -= 1
+                ev["pkt"], ev["rhl"] = bytes(b), b[3]
+            return ev
+        return super().dup_event()
+
+    def ego_event(self):
+        rng = self.rng
+        la, lo = self.cur
+        kind = rng.choice(["refresh", "jitter", "step", "step", "leap", "back", "cross", "cross", "cross", "cross"])
+        areas = [a for a in self.seen_areas[-2:] if _usable_area(a)]
+        if kind == "cross" and not areas:
+            kind = "step"
+        if kind == "cross":
+            ar = rng.choice(areas)
+            was_in = rs.f_value(ar, la, lo) >= 0
+            p = _side_of(rng, ar, not was_in)
+            if p is None:
+                kind = "refresh"
+            else:
+                la, lo = p
+                kind = "leave_area" if was_in else "enter_area"
+        elif kind == "back":
+            la, lo = rng.choice(self.trail)
+        elif kind != "refresh":
+            d = {"jitter": (0, 60), "step": (100, 5000), "leap": (20000, 900000)}[kind]
+            la += rng.choice([-1, 1]) * rng.randrange(*d)
+            lo += rng.choice([-1, 1]) * rng.randrange(*d)
+        if abs(la) > 899000000 or abs(lo) > 1799000000:
+            la, lo = self.cur
+        self.cur = (la, lo)
+        self.trail.append(self.cur)
+        return {"ev": "ego", "pv": ego_pv(self.st, self.now, self.cur, rng), "move": kind}
+
+    def build(self, n):
+        evs = []
+        while len(evs) < n:
+            evs += super().build(min(n - len(evs), self.rng.choice([1, 2, 3, 5, 8, 12])))
+            if len(evs) < n:
+                evs.append(self.ego_event())
+        self.events = evs
+        return evs
+
+
+def histories(ctx, n_hist, n_events, wrap=False, secured=False, moving=False):
     """wrap: every source starts 1-4 packets before its sequence number wraps, so that SN 65535, 0 and 1 are sent - and
     replayed - in every history.
     secured: the station has a (pass-through) verify service and most packets arrive as secured packets (Basic Header
     NH = 2); their duplicates arrive secured or not.  The model is given the unsecured equivalent (what the verify service
-    hands to the common-header stage), so the whole history is still compared with it."""
+    hands to the common-header stage), so the whole history is still compared with it.
+    moving: the station's own position is refreshed between the other events (MovingScenario)."""
     for it in range(n_hist):
         ego = ctx.rng.choice([(413800000, 21100000), (-338688000, 1512093000), (-100, -100)])
         rs.VCLOCK.set_ms(1_700_000_000_000 + ctx.rng.randrange(0, 10 ** 9))
         ls_max = ctx.rng.choice([10, 10, 0, 1, 2])
-        st = rs.Station(area_alg=ctx.rng.choice(["CBF", "CBF", "SIMPLE", "UNSPECIFIED"]), dpl_len=ctx.rng.choice([1, 2, 8, 8]),
+        st = rs.Station(area_alg=ctx.rng.choice(["CBF", "CBF", "CBF" if moving else "SIMPLE", "SIMPLE" if moving else "UNSPECIFIED"]),
+                        dpl_len=ctx.rng.choice([1, 2, 8, 8]),
                         ego=ego, life_s=ctx.rng.choice([20, 20, 3]), mobile=ctx.rng.random() < 0.7, ls_max=ls_max)
         if secured:
             st.router.verify_service = PassVerify()
         mix = {"beacon": 2, "shb": 1, "tsb": 4, "gbc": 6, "gac": 3, "guc": 4, "lsreq": 2, "lsrep": 2, "dup": 9, "tick": 3,
                "req_guc": 1, "ls": 0 if ls_max == 10 else 2, "cbf": 4, "req_shb": 0, "req_geo": 1, "ego": 0}
         # rich: speed / heading / mobility flag / offload bit / lifetime code / station type / M bit of the sources vary
-        sc = rs.Scenario(ctx.rng, st, n_sources=ctx.rng.choice([2, 3, 4]), mix=mix, rich=True)
+        if moving:
+            # more GeoBroadcast packets and duplicates, fewer timer expiries: copies wait in the CBF buffer for longer
+            # (and fewer unicast / LS packets: their geometry tables grow with every position the station has been at)
+            mix.update({"gbc": 12, "gac": 4, "dup": 12, "cbf": 2, "tsb": 2, "guc": 2, "lsreq": 1, "lsrep": 1, "req_guc": 0})
+        sc = (MovingScenario if moving else rs.Scenario)(ctx.rng, st, n_sources=ctx.rng.choice([2, 3, 4]), mix=mix, rich=True)
         # received hop limits: the ends of the range and a value of the whole range in every history
         sc.rhl_values = [0, 1, 1, 2, 2, ctx.rng.choice([3, 127, 128, 254]), ctx.rng.randrange(256), 255]
         if wrap:
@@ -231,7 +383,8 @@ def histories(ctx, n_hist, n_events, wrap=False, secured=False):
         oracle_history(ctx, st, evs, impl)
         for ev, obs in zip(evs, impl):
             ctx.count(1, "ev_" + (ev.get("kind") or ev["ev"]) + ("_dup" if ev.get("dup_of") else "")
-                      + ("_own_address" if ev.get("own") else "") + ("_secured" if ev.get("secured") else ""))
+                      + ("_own_address" if ev.get("own") else "") + ("_secured" if ev.get("secured") else "")
+                      + ("_" + ev["move"] if ev.get("move") else ""))
             if obs["sent"]:
                 ctx.count(1, "with_transmission")
         if it == 0:
@@ -239,10 +392,54 @@ def histories(ctx, n_hist, n_events, wrap=False, secured=False):
             ctx.sample({"event": rs._ev_repr({k: v for k, v in e0.items() if k not in ("dests", "model_pkt")})})
 
 
+class ShortHistories:
+    """many short single-station histories: each one is run on the implementation and judged by the oracle at once, the
+    model runs them all in ONE process at the end (a process per history costs more than a short history itself) and every
+    history is then compared with its model trace by rs.compare_with_model, exactly as rs.run_history does"""
+
+    class _Answer:
+        available = True
+
+        def __init__(self, flat):
+            self.flat = flat
+
+        def call(self, cmd, args):
+            return self.flat
+
+    def __init__(self, ctx):
+        self.ctx, self.stations = ctx, []
+
+    def run(self, st, evs):
+        for ev in evs:
+            st.record(self.ctx, ev)
+        self.stations.append(st)
+        impl = list(st.rec_obs)
+        oracle_history(self.ctx, st, evs, impl)
+        return impl
+
+    def compare(self):
+        ctx, real = self.ctx, self.ctx.model
+        if not real.available:
+            return
+        reqs = []
+        for st in self.stations:
+            idxs = [i for i, e in enumerate(st.rec_events) if e["ev"] != "tick"]
+            reqs.append((1, rs.encode_history(st, [st.rec_events[i] for i in idxs], [st.rec_geos[i] for i in idxs])))
+        answers = real.batch(reqs)
+        try:
+            for st, flat in zip(self.stations, answers):
+                ctx.model = self._Answer(flat)
+                rs.compare_with_model(ctx, st)
+        finally:
+            ctx.model = real
+        self.stations = []
+
+
 def dpl_windows(ctx, lengths):
     """the ends of the duplicate-detection window, for every packet type and list length L: a packet is replayed after
     exactly L - 1 other sequence numbers of its source were accepted (still a duplicate: neither delivered nor forwarded)
     and again after exactly L (it has left the window)"""
+    short = ShortHistories(ctx)
     for L in lengths:
         for kind in MH:
             rs.VCLOCK.set_ms(1_700_000_000_000 + ctx.rng.randrange(0, 10 ** 9))
@@ -267,13 +464,124 @@ def dpl_windows(ctx, lengths):
             evs.append(sc.rx_event(ctx.rng.choice(MH), src=S, sn=(sn0 + L) % 65536, rhl=3, mhl=5))
             evs.append(replay())                      # L others accepted: outside
             evs.append(replay())                      # and once accepted again, a duplicate again
-            impl, mtrace, skipped = rs.run_history(ctx, st, evs)
-            oracle_history(ctx, st, evs, impl)
+            short.run(st, evs)
             ctx.count(1, "dpl_window_L%d_%s" % (L, kind))
+    short.compare()
+
+
+# the station's way between the first reception of a GeoBroadcast / GeoAnycast packet and its duplicate, as sides of the
+# packet's area: i = a position inside, o = outside, = the same position reported again
+WAYS_FROM_INSIDE = ("", "=", "i", "o", "oi", "oo", "oio")
+WAYS_FROM_OUTSIDE = ("", "=", "o", "i", "io", "ioi")
+DUP_KINDS = ("exact", "one_hop_less", "other_hops")
+EXPIRY = ("after_duplicate", "before_duplicate", "before_moving", "between_moves")
+
+
+def moves_between_copies(ctx, rounds, full):
+    """a packet, position updates of the station, a duplicate of the packet, CBF timer expiries at any point in between.
+    The property has no exception for a station that moved: the duplicate is neither delivered nor forwarded, a copy still
+    waiting in the CBF buffer is dropped (and not sent by a timer later), a copy sent before the duplicate is the packet
+    with RHL - 1, wherever the station is when the duplicate / the expiry comes.  Areas of every shape, size and
+    orientation; the first reception inside or outside; every way in WAYS_*; the duplicate as received, as re-broadcast by
+    another forwarder (one hop less) or with another hop count; CBF / SIMPLE / UNSPECIFIED.  full: the whole product,
+    otherwise every way with every duplicate kind and a drawn expiry point.  Judged by oracle_history like every history."""
+    rng = ctx.rng
+    base = (413800000, 21100000)
+    short = ShortHistories(ctx)
+    for rnd in range(rounds):
+        combos = [(start, way, dk, ex) for start, ways in (("inside", WAYS_FROM_INSIDE), ("outside", WAYS_FROM_OUTSIDE))
+                  for way in ways for dk in DUP_KINDS for ex in (EXPIRY if full else (None,))]
+        for start, way, dk, ex in combos:
+            ex = ex or rng.choice(EXPIRY + ("after_duplicate",) * 3)
+            kind = "gbc" if rng.random() < 0.85 else "gac"
+            shape = rng.choice([0, 1, 2])
+            a = rng.choice([1, 5, 30, 300, 1500, rng.randrange(1, 1500)])
+            b = rng.choice([1, 5, 30, 300, 1500, rng.randrange(1, 1500)])
+            centre = rng.choice([base, (-338688000, 1512093000), (-100, -100)])
+            area = (centre[0] + rng.randrange(-3000, 3001), centre[1] + rng.randrange(-3000, 3001), a, b,
+                    rng.choice([0, 45, 90, 359, rng.randrange(360)]), shape)
+            p0 = _side_of(rng, area, start == "inside")
+            if p0 is None:
+                continue
+            rs.VCLOCK.set_ms(1_700_000_000_000 + rng.randrange(0, 10 ** 9))
+            st = rs.Station(area_alg=rng.choice(["CBF"] * 8 + ["SIMPLE", "UNSPECIFIED"]), dpl_len=rng.choice([1, 2, 8]),
+                            ego=p0, mobile=rng.random() < 0.7)
+            sc = rs.Scenario(rng, st, n_sources=2, rich=True)
+            S, N = sc.sources
+            spos = _side_of(rng, area, rng.random() < 0.5) or S.pos[0]      # the sender: inside or outside the area
+            st.positions = {p0, spos, N.pos[0], (0, 0)}                     # (the rows of the model's geometry tables)
+            evs = [sc.rx_event("beacon", src=N, rhl=1, mhl=1, pos=N.pos[0])]
+            rhl = rng.choice([2, 2, 3, 10, 255, rng.randrange(2, 256), 1])
+            first = sc.rx_event(kind, src=S, rhl=rhl, mhl=rng.choice([rhl, 255]), area=area, pos=spos,
+                                scf=int(rng.random() < 0.3))
+            evs.append(first)
+            key = list(S.addr) + [first["sn"]]
+
+            def expiry():
+                sc.now += rng.choice([0, 1, 100])
+                evs.append({"ev": "cbf", "key": list(key)})
+
+            def copy(how):
+                e = dict(first)
+                e["now"], e["dup_of"] = sc.now, True
+                bb = bytearray(e["pkt"])
+                if how == "one_hop_less" and bb[3] > 0:
+                    bb[3] -= 1
+                elif how == "other_hops":
+                    bb[3] = rng.choice([0, 1, 2, bb[10], rng.randrange(0, bb[10] + 1)])
+                e["pkt"], e["rhl"] = bytes(bb), bb[3]
+                return e
+            if ex == "before_moving":
+                expiry()
+            here = p0
+            for j, c in enumerate(way):
+                if c != "=":
+                    here = _side_of(rng, area, c == "i") or here
+                sc.now += rng.choice([1, 100, 1000])
+                evs.append({"ev": "tick", "ms": 1})
+                evs.append({"ev": "ego", "pv": ego_pv(st, sc.now, here, rng), "move": "to_" + {"i": "inside", "o": "outside", "=": "same_place"}[c]})
+                if ex == "between_moves" and j == 0:
+                    expiry()
+            if ex == "before_duplicate":
+                expiry()
+            evs.append(copy(dk))
+            expiry()                                   # a timer that was not stopped would fire now
+            if rng.random() < 0.5:                     # ... or after the station has moved once more
+                here = _side_of(rng, area, rng.random() < 0.5) or here
+                evs.append({"ev": "ego", "pv": ego_pv(st, sc.now, here, rng), "move": "on"})
+                evs.append(copy(rng.choice(DUP_KINDS)))
+                expiry()
+            short.run(st, evs)
+            ctx.count(1, "moves_%s_first_%s_then_%s" % (kind, start, way or "stays"))
+            ctx.count(1, "moves_duplicate_%s_expiry_%s" % (dk, ex))
+        short.compare()
 
 
 # --------------------------------------------------------------------------- floods in a network of real routers
-def flood(ctx, n_nodes, topo, alg, hop_limit):
+def _flood_move(ctx, nodes, area):
+    """a station of the network moves on while the packet spreads: to a position inside or outside the packet's area
+    (GeoBroadcast / GeoAnycast), or by up to some hundred metres (Router.refresh_ego_position_vector)"""
+    rng = ctx.rng
+    n = rng.choice(nodes)
+    pv = n["r"].ego_position_vector
+    pos = _side_of(rng, area, rng.random() < 0.5) if area is not None and rng.random() < 0.8 else None
+    if pos is None:
+        pos = (pv.latitude + rng.randrange(-50000, 50001), pv.longitude + rng.randrange(-50000, 50001))
+    # through the station's own interface for position fixes (GPSD TPV report: degrees, m/s, degrees, ISO time)
+    n["r"].refresh_ego_position_vector({
+        "lat": pos[0] / 1e7, "lon": pos[1] / 1e7, "speed": rng.choice([0.0, 1.5, 13.9, 40.0]), "track": rng.choice([0.0, 90.0, 359.9]),
+        "time": datetime.datetime.fromtimestamp(stack.VCLOCK.ms / 1000, datetime.timezone.utc).isoformat()})
+
+
+def _flood_emission(ctx, inp, node, key):
+    """a station transmits a packet it has heard: then it has heard it exactly once - a second copy is a duplicate (never
+    forwarded), and under contention-based forwarding it ends the wait of the first"""
+    if node["heard"].get(key, 0) > 1:
+        ctx.property_failure("flood_forward_after_duplicate", inp, "a station transmitted a packet after it had overheard a "
+                             "duplicate of it (under CBF the copy waiting in the buffer was not dropped)", 1, node["heard"][key])
+
+
+def flood(ctx, n_nodes, topo, alg, hop_limit, moving=False):
     from flexstack.geonet.service_access_point import (GNDataRequest, PacketTransportType, HeaderType, GeoBroadcastHST,
                                                        Area, CommonNH, TrafficClass)
     stack.FakeTimer.reset()
@@ -287,7 +595,7 @@ def flood(ctx, n_nodes, topo, alg, hop_limit):
         stack.set_ego(r, base[0] + i * 900, base[1] + i * 1200)
         inds = []
         r.register_indication_callback(inds.append)
-        nodes.append({"r": r, "ll": ll, "inds": inds, "fwd": {}})
+        nodes.append({"r": r, "ll": ll, "inds": inds, "fwd": {}, "heard": {}})
     if topo == "line":
         links = {i: [j for j in (i - 1, i + 1) if 0 <= j < n_nodes] for i in range(n_nodes)}
     else:
@@ -305,12 +613,16 @@ def flood(ctx, n_nodes, topo, alg, hop_limit):
     nodes[0]["r"].gn_data_request(req)
     transmissions, steps = 0, 0
     queue = []
-    inp = {"op": "flood", "nodes": n_nodes, "topology": topo, "algorithm": alg, "hop_limit": hop_limit}
+    inp = {"op": "flood", "nodes": n_nodes, "topology": topo, "algorithm": alg, "hop_limit": hop_limit, "moving": moving}
     while steps < 5000:
         steps += 1
         for i, n in enumerate(nodes):
             while n["ll"].sent:
-                queue.append((i, n["ll"].sent.pop(0)))
+                f = n["ll"].sent.pop(0)
+                _flood_emission(ctx, inp, n, (f[16:24], f[12:14]))
+                queue.append((i, f))
+        if moving and ctx.rng.random() < 0.5:
+            _flood_move(ctx, nodes, (base[0], base[1], 1000, 1000, 0, 0))
         if not queue:
             pend = stack.FakeTimer.pending()
             if not pend:
@@ -326,8 +638,9 @@ def flood(ctx, n_nodes, topo, alg, hop_limit):
         if nodes[i]["fwd"][key] > 1:
             ctx.property_failure("flood_forward_twice", inp, "a station transmitted the same (source, SN) twice", 1, nodes[i]["fwd"][key])
         for j in links[i]:
+            nodes[j]["heard"][key] = nodes[j]["heard"].get(key, 0) + 1
             nodes[j]["r"].gn_data_indicate(pkt)
-    ctx.count(1, "flood_" + topo + "_" + alg)
+    ctx.count(1, "flood_" + topo + "_" + alg + ("_stations_moving" if moving else ""))
     if steps >= 5000:
         ctx.property_failure("flood_no_termination", inp, "the flood did not terminate", "drains", transmissions)
     if transmissions > n_nodes:
@@ -339,11 +652,11 @@ def flood(ctx, n_nodes, topo, alg, hop_limit):
             ctx.property_failure("flood_delivered_twice", inp, "a station delivered the flooded packet more than once", 1, got)
     if nodes[0]["inds"]:
         ctx.property_failure("flood_delivered_to_sender", inp, "the originator delivered its own packet", 0, len(nodes[0]["inds"]))
-    ctx.nontriv(("flood", n_nodes, topo, alg, hop_limit, transmissions))
+    ctx.nontriv(("flood", n_nodes, topo, alg, hop_limit, transmissions, moving))
     return transmissions
 
 
-def flood_injected(ctx, n_nodes, topo, alg, kind, rhl):
+def flood_injected(ctx, n_nodes, topo, alg, kind, rhl, moving=False):
     """a multi-hop packet of a station X outside the network is heard by node 0 and spreads: TSB, LS request, GeoUnicast
     and LS reply towards the last node, GeoBroadcast / GeoAnycast towards an area around the last node (the nodes before
     it are outside: non-area forwarding, Annex D).  Every station transmits the packet at most once, delivers it at most
@@ -360,7 +673,7 @@ def flood_injected(ctx, n_nodes, topo, alg, kind, rhl):
         stack.set_ego(r, base[0] + i * 900, base[1] + i * 1200)
         inds = []
         r.register_indication_callback(inds.append)
-        nodes.append({"r": r, "ll": ll, "inds": inds, "fwd": {}})
+        nodes.append({"r": r, "ll": ll, "inds": inds, "fwd": {}, "heard": {}})
     if topo == "line":
         links = {i: [j for j in (i - 1, i + 1) if 0 <= j < n_nodes] for i in range(n_nodes)}
     else:
@@ -390,14 +703,21 @@ def flood_injected(ctx, n_nodes, topo, alg, kind, rhl):
     else:
         pkt = stack.ls_reply_bytes(X, sn, tst, xpos[0], xpos[1], de, rhl=rhl, mhl=rhl)
     inp = {"op": "flood_injected", "kind": kind, "nodes": n_nodes, "topology": topo, "algorithm": alg, "rhl": rhl,
-           "packet": pkt.hex()}
+           "packet": pkt.hex(), "moving": moving}
+    area = (lpos[0], lpos[1], 20, 20, 0, 0) if kind in ("gbc", "gac") else None
+    nodes[0]["heard"][(pkt[16:24], pkt[12:14], pkt[5])] = 1
     nodes[0]["r"].gn_data_indicate(pkt)
     transmissions, steps, queue = 0, 0, []
     while steps < 5000:
         steps += 1
         for i, n in enumerate(nodes):
             while n["ll"].sent:
-                queue.append((i, n["ll"].sent.pop(0)))
+                f = n["ll"].sent.pop(0)
+                if f[5] >> 4 != 1:
+                    _flood_emission(ctx, inp, n, (f[16:24], f[12:14], f[5]))
+                queue.append((i, f))
+        if moving and ctx.rng.random() < 0.5:
+            _flood_move(ctx, nodes, area)
         if not queue:
             pend = stack.FakeTimer.pending()
             if not pend:
@@ -418,8 +738,9 @@ def flood_injected(ctx, n_nodes, topo, alg, kind, rhl):
             ctx.property_failure("flood_copy_changed", inp, "a copy travelling through the network does not carry the original "
                                  "headers with a lower hop limit", pkt.hex(), p.hex())
         for j in links[i]:
+            nodes[j]["heard"][key] = nodes[j]["heard"].get(key, 0) + 1
             nodes[j]["r"].gn_data_indicate(p)
-    ctx.count(1, "flood_injected_" + kind + "_" + topo + "_" + alg)
+    ctx.count(1, "flood_injected_" + kind + "_" + topo + "_" + alg + ("_stations_moving" if moving else ""))
     if steps >= 5000:
         ctx.property_failure("flood_no_termination", inp, "the flood did not terminate", "drains", transmissions)
     if transmissions > n_nodes:
@@ -429,8 +750,21 @@ def flood_injected(ctx, n_nodes, topo, alg, kind, rhl):
     for j in range(n_nodes):
         if len(nodes[j]["inds"]) > 1:
             ctx.property_failure("flood_delivered_twice", inp, "a station delivered the packet more than once", 1, len(nodes[j]["inds"]))
-    ctx.nontriv(("flood_injected", kind, n_nodes, topo, alg, rhl, transmissions, tuple(len(n["inds"]) for n in nodes)))
+    ctx.nontriv(("flood_injected", kind, n_nodes, topo, alg, rhl, transmissions, tuple(len(n["inds"]) for n in nodes), moving))
     return transmissions
+
+
+def moving_floods(ctx, reps, sizes, algs):
+    """the floods again, in networks whose stations move on while the packet spreads (half of the steps, one station: to
+    the other side of the packet's area, or some hundred metres): every station still transmits the packet at most once
+    and never after it overheard a duplicate, delivers it at most once, and the spreading stops"""
+    for _ in range(reps):
+        for n in sizes:
+            for topo in ("line", "mesh"):
+                for alg in algs:
+                    flood(ctx, n, topo, alg, ctx.rng.choice([0, 1, 2, 3, 10, 255]), moving=True)
+                    for kind in ("tsb", "lsreq", "gbc", "gac", "guc", "lsrep"):
+                        flood_injected(ctx, n, topo, alg, kind, ctx.rng.choice([0, 1, 2, 3, 10, 255]), moving=True)
 
 
 def run(ctx):
@@ -441,8 +775,13 @@ def run(ctx):
                 "points; LS retransmission limits 0/1/2/10; histories with every source wrapping its sequence number; "
                 "histories received through the secured branch of the router) checked against the property clauses with an "
                 "independent duplicate-window bookkeeping and compared event by event with the model; the two ends of the "
-                "duplicate window for every type and length; floods in line and mesh networks of 3-5 real routers, "
-                "originated (GBC) and injected (TSB, LS, GUC, GBC/GAC towards a distant area); non-trivial = a fresh "
+                "duplicate window for every type and length; the station's own position refreshed between the events "
+                "(same place, jitter, metres, kilometres, back, across the border of a recently named area) in histories of "
+                "their own, and every way of the station (inside / outside the packet's area, up to three moves) between a "
+                "GeoBroadcast / GeoAnycast packet and its duplicate x duplicate as received / one hop less / other hop count x "
+                "CBF timer expiry before / between / after; floods in line and mesh networks of 3-5 real routers, "
+                "originated (GBC) and injected (TSB, LS, GUC, GBC/GAC towards a distant area), with static and with moving "
+                "stations; non-trivial = a fresh "
                 "multi-hop packet was processed; distinct by (kind, source, sn, rhl, forwarded?, delivered?)")
     rs.stack.patch_time()
     inj = ("tsb", "lsreq", "gbc", "gac", "guc", "lsrep")
@@ -451,18 +790,28 @@ def run(ctx):
         histories(ctx, 14, 70, wrap=True)
         histories(ctx, 14, 70, secured=True)
         dpl_windows(ctx, (1, 2, 3, 8))
+        moves_between_copies(ctx, 1, True)
+        moves_between_copies(ctx, 1, False)
+        histories(ctx, 14, 70, moving=True)
         for n in (3, 5):
             for topo in ("line", "mesh"):
                 for alg in ("SIMPLE", "CBF"):
                     flood(ctx, n, topo, alg, ctx.rng.choice([2, 3, 10]))
                     for kind in inj:
                         flood_injected(ctx, n, topo, alg, kind, ctx.rng.choice([0, 1, 2, 3, 10, 255]))
+        moving_floods(ctx, 3, (3, 4, 5), ("SIMPLE", "CBF"))
     else:
         histories(ctx, 600, 160)
         histories(ctx, 80, 120, wrap=True)
         histories(ctx, 100, 120, secured=True)
         histories(ctx, 30, 120, wrap=True, secured=True)
         dpl_windows(ctx, (1, 2, 3, 4, 8, 16))
+        moves_between_copies(ctx, 6, True)
+        moves_between_copies(ctx, 6, False)
+        histories(ctx, 120, 120, moving=True)
+        histories(ctx, 30, 120, moving=True, wrap=True)
+        histories(ctx, 30, 120, moving=True, secured=True)
+        moving_floods(ctx, 20, (3, 4, 5), ("SIMPLE", "CBF", "UNSPECIFIED"))
         for n in (3, 4, 5):
             for topo in ("line", "mesh"):
                 for alg in ("SIMPLE", "CBF", "UNSPECIFIED"):
